@@ -261,7 +261,7 @@ class Sim:
         elif kind == 'setopen':
             if ev[1] and self.conn._io.socket is None:
                 self.conn._io.socket = FakeSock(self)
-            self.conn.set_state(self.conn.OPEN if ev[1] else self.conn.CLOSED)
+            self.conn.set_state(self.conn.OPEN if ev[1] else self.conn.CLOSING)   # CLOSING: a close in progress
             self.monitor.on_open_flag(bool(ev[1]))
             g.append('o1' if ev[1] else 'o0')
         elif kind == 'open':
@@ -635,6 +635,7 @@ def check(rep):
         'the scripted broker always answers the open and close handshakes immediately',
     ]
     lines, expect, meta = [], [], []
+    seen_sigs = set()
 
     def record(T, evs, sim, projs, inj_seed, inject, kind):
         lines.append(driver_line(T, sim.groups))
@@ -644,7 +645,11 @@ def check(rep):
         rep.case((str(T), json.dumps(evs), inj_seed if inject else -1), fired,
                  sample={'T': T, 'kind': kind, 'events': len(evs), 'model_events': sum(len(g) for g in sim.groups)})
         for sig, what in sim.monitor.found:
-            small = shrink(T, evs, inj_seed, inject, sig)
+            rep.count('violations_by_signature', sig)
+            if sig in seen_sigs:      # one shrunk replay per structural signature
+                continue
+            seen_sigs.add(sig)
+            small = shrink(T, [list(e) for e in evs], inj_seed, inject, sig)
             rep.violation(sig, what, {'T': T, 'events': small, 'inj_seed': inj_seed, 'inject': inject})
         rep.count('T', T)
         rep.count('kind', kind)
